@@ -77,10 +77,10 @@ fn outcome_json(r: &Value, nenvs: usize) -> Value {
 /// evaluator and the code generator; a name lost along any chain changes the result.
 pub fn use_ladder(lower: bool) -> Vec<(Program, Vec<V>)> {
     use crate::ast::{Expr, Helper, Pat};
-    let (p1, p2) = if lower { ("p1", "p2") } else { ("P1", "P2") };
+    let (p1, p2, pprog) = if lower { ("p1", "p2", "pprog") } else { ("P1", "P2", "PPROG") };
     let v = |n: &str| Expr::Var(n.to_string());
     let pv = |n: &str| Pat::Var(n.to_string());
-    let nwrap = 10;
+    let nwrap = 12;
     let wrap = |k: usize, e: Expr, ctr: &mut usize| -> Expr {
         *ctr += 1;
         let (l, m) = (format!("L{}", *ctr * 2), format!("L{}", *ctr * 2 + 1));
@@ -94,22 +94,27 @@ pub fn use_ladder(lower: bool) -> Vec<(Program, Vec<V>)> {
             6 => Expr::Apply(Box::new(Expr::Lambda(vec![], Pat::list(vec![pv(&m)], Pat::Nil), Box::new(v(&m)))), Box::new(Expr::List(vec![e]))),
             7 => Expr::If(Box::new(Expr::Lit(V::int(1))), Box::new(e), Box::new(Expr::Lit(V::int(0)))),
             8 => Expr::If(Box::new(v(p1)), Box::new(e), Box::new(Expr::Lit(V::int(0)))),
-            _ => Expr::Prim(5, vec![Expr::List(vec![e])]),
+            9 => Expr::Prim(5, vec![Expr::List(vec![e])]),
+            // a condition choosing between two function values, applied to an environment holding the expression
+            10 => Expr::Apply(Box::new(Expr::Prim(3, vec![v(p1), v("fun2"), v("fun2")])), Box::new(Expr::List(vec![e]))),
+            // ... and between two programs passed in as a parameter (the third parameter holds the CLVM program 2)
+            _ => Expr::Apply(Box::new(Expr::Prim(3, vec![v(p1), v(pprog), v(pprog)])), Box::new(Expr::List(vec![e]))),
         }
     };
     let helpers = vec![
         Helper::Defun { name: "inl1".into(), pat: Pat::list(vec![pv("A")], Pat::Nil), body: v("A"), inline: true },
         Helper::Defun { name: "fun2".into(), pat: Pat::list(vec![pv("B")], Pat::Nil), body: v("B"), inline: false },
     ];
-    let args = Pat::list(vec![pv(p1), pv(p2)], Pat::Nil);
-    let envs = vec![V::list(&[V::int(1), V::int(700)]), V::list(&[V::int(3), V::list(&[V::int(1), V::int(2)])]), V::list(&[V::nil(), V::int(9)])];
+    let args = Pat::list(vec![pv(p1), pv(p2), pv(pprog)], Pat::Nil);
+    let two = V::int(2);
+    let envs = vec![V::list(&[V::int(1), V::int(700), two.clone()]), V::list(&[V::int(3), V::list(&[V::int(1), V::int(2)]), two.clone()]), V::list(&[V::nil(), V::int(9), two])];
     let mut out = vec![];
     for a in 0..nwrap {
         for b in (0..=nwrap).rev() {
             let mut ctr = 0;
             let inner = wrap(a, v(p2), &mut ctr);
             let e = if b == nwrap { inner } else { wrap(b, inner, &mut ctr) };
-            let uses_helpers = [a, b].iter().any(|k| *k == 3 || *k == 4);
+            let uses_helpers = [a, b].iter().any(|k| *k == 3 || *k == 4 || *k == 10);
             out.push((Program { args: args.clone(), helpers: if uses_helpers { helpers.clone() } else { vec![] }, body: Expr::Prim(4, vec![v(p1), e]) }, envs.clone()));
         }
     }
@@ -181,6 +186,42 @@ pub fn rest_and_assign_ladders() -> Vec<(Program, Vec<V>)> {
                 helpers: vec![Helper::Defun { name: "take".into(), pat: Pat::list(vec![pv("P")], Pat::Nil), body: body.clone(), inline }],
                 body: Expr::Call("take".into(), vec![v("Q")], None) };
             out.push((p, vec![V::list(&[arg.clone()])]));
+        }
+    }
+    out
+}
+
+/// AtLadder: functions with an (@ name pattern) parameter whose body reaches the captured value and the pattern's
+/// names directly, under an if, and under a let; the argument has exactly the pattern's shape, a longer list, or an
+/// improper tail (the capture must keep all of it).
+pub fn at_ladder() -> Vec<(Program, Vec<V>)> {
+    use crate::ast::{Expr, Helper, Pat};
+    let v = |n: &str| Expr::Var(n.to_string());
+    let pv = |n: &str| Pat::Var(n.to_string());
+    let at = Pat::At("Z".into(), Box::new(Pat::list(vec![pv("B"), pv("C")], Pat::Nil)));
+    let bodies: Vec<Expr> = vec![
+        Expr::List(vec![v("B"), v("C"), v("Z")]),
+        Expr::If(Box::new(v("A")), Box::new(Expr::Prim(4, vec![v("B"), v("Z")])), Box::new(Expr::Prim(4, vec![v("C"), v("Z")]))),
+        Expr::Let(false, vec![("L".into(), v("Z"))], Box::new(Expr::If(Box::new(v("A")), Box::new(Expr::Prim(4, vec![v("C"), v("L")])), Box::new(v("L"))))),
+        Expr::If(Box::new(v("A")), Box::new(Expr::Let(false, vec![("L".into(), v("B"))], Box::new(Expr::List(vec![v("L"), v("Z")])))), Box::new(v("Z"))),
+    ];
+    let qs = [V::list(&[V::int(2), V::int(3)]), V::list(&[V::int(2), V::int(3), V::int(4), V::int(5)]), V::list_tail(&[V::int(2), V::int(3)], V::int(9))];
+    let mut out = vec![];
+    for body in bodies {
+        for inline in [false, true] {
+            for first in [false, true] {
+                let fpat = if first { Pat::list(vec![at.clone(), pv("A")], Pat::Nil) } else { Pat::list(vec![pv("A"), at.clone()], Pat::Nil) };
+                let call = if first { vec![v("Q"), v("P")] } else { vec![v("P"), v("Q")] };
+                let p = Program { args: Pat::list(vec![pv("P"), pv("Q")], Pat::Nil),
+                    helpers: vec![Helper::Defun { name: "capt".into(), pat: fpat, body: body.clone(), inline }],
+                    body: Expr::Call("capt".into(), call, None) };
+                let mut envs = vec![];
+                for q in qs.iter() {
+                    envs.push(V::list(&[V::int(1), q.clone()]));
+                    envs.push(V::list(&[V::nil(), q.clone()]));
+                }
+                out.push((p, envs));
+            }
         }
     }
     out
@@ -329,6 +370,7 @@ pub fn drive(args: &HashMap<String, String>) {
     if profile == "ladder" {
         progs.extend(use_ladder(false));
         progs.extend(rest_and_assign_ladders());
+        progs.extend(at_ladder());
     }
     for i in 0..(if profile == "ladder" { 0 } else { n }) {
         // alternate small / full programs
